@@ -3,6 +3,7 @@
 tier=${1:-quick}; shift
 props=${@:-C01 C02 C03 C04 C05 C06 C07 C08 C09 C11 C12 C14 C15 C16 C18}
 mkdir -p /var/tmp/sweep
+echo $$ > /var/tmp/sweep/pid
 for p in $props; do
   t0=$(date +%s)
   /verif/check $p --tier $tier > /var/tmp/sweep/$p.$tier.txt 2>&1; rc=$?
